@@ -9,20 +9,20 @@ import re
 from .. import tlc
 from ..common import Report, pmap
 
-FAMILY = r"^(append|kill|compactify|incage|inv)\.|^replay\."
+FAMILY = r"^(append|kill|compactify|incage|copyage|bump|inv)\.|^replay\."
 
 
 def _mk_state():
     from ladim.state import State
-    return State(instance_variables=dict(tag=int, age=int, w=float), particle_variables=dict(ptag=int, born="time"),
-                 default_values=dict(age=0, w=1.5))
+    return State(instance_variables=dict(tag=int, age=int, mark=int, w=float), particle_variables=dict(ptag=int, born="time"),
+                 default_values=dict(age=0, mark=0, w=1.5))
 
 
 def _proj(s):
     v = s.variables
     names = sorted(s.instance_variables)
     return dict(pid=[int(x) for x in v["pid"]], alive=[bool(x) for x in v["alive"]], tag=[int(x) for x in v["tag"]],
-                age=[int(x) for x in v["age"]], ptag=[int(x) for x in v["ptag"]], npid=int(s.npid),
+                age=[int(x) for x in v["age"]], mark=[int(x) for x in v["mark"]], ptag=[int(x) for x in v["ptag"]], npid=int(s.npid),
                 lens=[int(len(v[n])) for n in names] + [int(len(s))])
 
 
@@ -50,6 +50,10 @@ def _apply(s, op, rng=None):
         s.compactify()
     elif o == "incage":
         s["age"] = s["age"] + 1
+    elif o == "copyage":
+        s["mark"] = s["age"]                # one variable assigned from another ...
+    elif o == "bump":
+        s["age"][op["i"]] += 1              # ... and the source changed in place afterwards
     else:
         raise ValueError(o)
 
@@ -68,7 +72,7 @@ def replay_behaviours(sc):
                 bad.append(dict(beh=bi, at=k, op=op, error=repr(e)[:200]))
                 break
             post = op["post"]
-            want = dict(pid=post["iv"]["pid"], alive=post["iv"]["alive"], tag=post["iv"]["tag"], age=post["iv"]["age"],
+            want = dict(pid=post["iv"]["pid"], alive=post["iv"]["alive"], tag=post["iv"]["tag"], age=post["iv"]["age"], mark=post["iv"]["mark"],
                         ptag=post["pv"]["ptag"], npid=post["npid"])
             if any(got[f] != want[f] for f in want) or any(x != len(got["pid"]) for x in got["lens"]):
                 bad.append(dict(beh=bi, at=k, ops=[{a: b for a, b in o.items() if a != "post"} for o in hist[:k + 1]],
@@ -96,9 +100,16 @@ def random_history(sc):
             i = rng.randrange(n)
             op = dict(op="kill", i=i)
             e = dict(ev="kill", i=i)
-        elif r < 0.8:
+        elif r < 0.75:
             op = dict(op="compactify")
             e = dict(ev="compactify")
+        elif r < 0.83:
+            op = dict(op="copyage")
+            e = dict(ev="copyage")
+        elif r < 0.9:
+            i = rng.randrange(n)
+            op = dict(op="bump", i=i)
+            e = dict(ev="bump", i=i)
         else:
             op = dict(op="incage")
             e = dict(ev="incage")
@@ -115,7 +126,7 @@ def run(tier, seed):
     rep = Report("C05", tier, seed)
     thorough = tier == "thorough"
     rep.add_mc("MC_Pstate", tlc.model_check("MC_Pstate", "MC_Pstate.cfg" if thorough else "MC_Pstate_quick.cfg",
-                                            must_take=["DoAppend", "DoKill", "DoCompactify", "DoIncAge"]))
+                                            must_take=["DoAppend", "DoKill", "DoCompactify", "DoIncAge", "DoCopyAge", "DoBump"]))
     # ---- spec -> code: behaviours generated by TLC (exhaustive to a depth, simulated beyond)
     gen = tlc.run_tlc("MC_Pstate", "GEN_Pstate.cfg" if thorough else "GEN_Pstate_quick.cfg", workers=8)
     if gen.error or gen.violated:
